@@ -26,9 +26,44 @@ import (
 
 var fset = token.NewFileSet()
 
+// die: the source no longer has the shape a generator expects.  Inside a generator (runGen) only that generator's
+// tables are lost: its output files are replaced by files that do not compile, so exactly the properties whose theorems
+// depend on them lose their tie; outside one the translator exits.
+type genFailure struct{ msg string }
+
+var inGen bool
+
 func die(format string, a ...any) {
-	fmt.Fprintf(os.Stderr, "translator: "+format+"\n", a...)
+	msg := fmt.Sprintf(format, a...)
+	if inGen {
+		panic(genFailure{msg})
+	}
+	fmt.Fprintf(os.Stderr, "translator: "+msg+"\n")
 	os.Exit(2)
+}
+
+var failedGens []string
+
+func runGen(name, out string, outputs []string, f func()) {
+	inGen = true
+	defer func() {
+		inGen = false
+		if p := recover(); p != nil {
+			gf, ok := p.(genFailure)
+			if !ok {
+				gf = genFailure{fmt.Sprintf("panic: %v", p)}
+			}
+			fmt.Fprintf(os.Stderr, "translator: FAILED generator %s: %s\n", name, gf.msg)
+			failedGens = append(failedGens, name)
+			for _, o := range outputs {
+				var b bytes.Buffer
+				clean := strings.NewReplacer("*)", "* )", "(*", "( *").Replace(gf.msg)
+				fmt.Fprintf(&b, "(* TRANSLATION FAILED (%s): %s *)\nDefinition translation_failed := TRANSLATION_FAILED_the_source_no_longer_has_the_expected_shape.\n", name, clean)
+				_ = os.WriteFile(filepath.Join(out, o), b.Bytes(), 0o644)
+			}
+		}
+	}()
+	f()
 }
 
 func parseFile(path string) *ast.File {
@@ -721,6 +756,14 @@ func methodSets(repo string, b *bytes.Buffer) {
 // (one file per generated table), run after the built-in ones.
 var extraGens []func(repo, out string)
 
+// the files each extra generator writes, in registration order (registerGen keeps the two in step)
+var extraGenOutputs [][]string
+
+func registerGen(outputs []string, g func(repo, out string)) {
+	extraGens = append(extraGens, g)
+	extraGenOutputs = append(extraGenOutputs, outputs)
+}
+
 func main() {
 	repo := flag.String("repo", "/repo", "ch-go source tree")
 	out := flag.String("out", "", "output directory (coq/gen)")
@@ -732,7 +775,7 @@ func main() {
 		die("%v", err)
 	}
 
-	// Features.v
+	// Features.v (everything depends on it: a failure here is a failure of the whole translation)
 	env := constEnv{}
 	feats := constsOf(filepath.Join(*repo, "proto/feature.go"), env)
 	if len(feats) < 20 {
@@ -759,7 +802,7 @@ func main() {
 	}
 
 	// Codes.v
-	{
+	runGen("Codes", *out, []string{"Codes.v"}, func() {
 		var b bytes.Buffer
 		header(&b, "packet codes, stages, compression, bool, low-cardinality constants")
 		for _, f := range []string{
@@ -798,10 +841,10 @@ func main() {
 		need(sc, "ServerCodeHello", "ServerCodeData", "ServerCodeException", "ServerCodeEndOfStream", "ServerProfileEvents")
 		need(cc, "ClientCodeHello", "ClientCodeQuery", "ClientCodeData", "ClientCodeCancel", "ClientCodePing")
 		writeFile(*out, "Codes.v", &b)
-	}
+	})
 
 	// Consts.v
-	{
+	runGen("Consts", *out, []string{"Consts.v"}, func() {
 		var b bytes.Buffer
 		header(&b, "size caps, frame layout, defaults")
 		for _, fp := range [][2]string{{"proto/block.go", ""}, {"compress/compress.go", "cmp_"}, {"proto/reader.go", ""}, {"proto/proto.go", "proto_"}, {"client.go", "ch_"}, {"chpool/pool.go", "pool_"}, {"proto/date.go", ""}, {"proto/datetime64.go", ""}} {
@@ -821,38 +864,43 @@ func main() {
 		}
 		// methodEncoding bytes are typed constants in compress/compress.go: covered above.
 		writeFile(*out, "Consts.v", &b)
-	}
+	})
 
 	// GateSig.v
-	{
+	runGen("GateSig", *out, []string{"GateSig.v"}, func() {
 		var b bytes.Buffer
 		header(&b, "sequence of (feature gates, primitive call) of every Encode/Decode pair")
 		gateSigs(*repo, &b, featMap)
 		writeFile(*out, "GateSig.v", &b)
-	}
+	})
 
 	// Codecs.v
-	{
+	runGen("Codecs", *out, []string{"Codecs.v"}, func() {
 		var b bytes.Buffer
 		header(&b, "generated fixed-width codecs (proto/col_*_safe_gen.go, col_*_unsafe_gen.go)")
 		codecs(*repo, &b)
 		writeFile(*out, "Codecs.v", &b)
-	}
+	})
 
 	// InferTable.v + Methods.v
-	{
+	runGen("InferTable", *out, []string{"InferTable.v"}, func() {
 		var b bytes.Buffer
 		header(&b, "proto/col_auto_gen.go")
 		inferTable(*repo, &b)
 		writeFile(*out, "InferTable.v", &b)
-	}
-	{
+	})
+	runGen("Methods", *out, []string{"Methods.v"}, func() {
 		var b bytes.Buffer
 		header(&b, "Array/Nullable/LowCardinality helper methods found by ColAuto.Infer's reflection")
 		methodSets(*repo, &b)
 		writeFile(*out, "Methods.v", &b)
+	})
+	for i, g := range extraGens {
+		g := g
+		outs := extraGenOutputs[i]
+		runGen(strings.Join(outs, "+"), *out, outs, func() { g(*repo, *out) })
 	}
-	for _, g := range extraGens {
-		g(*repo, *out)
+	if len(failedGens) > 0 {
+		fmt.Printf("translator: %d generator(s) failed: %s\n", len(failedGens), strings.Join(failedGens, ", "))
 	}
 }
